@@ -152,6 +152,15 @@ func (f *frame) ivalOf(t *Term) ival {
 		}
 	case "ite":
 		r = meet(r, hull(f.ivalOf(t.Args[1]), f.ivalOf(t.Args[2])))
+	case "pow2":
+		a := f.ivalOf(t.Args[0])
+		if a.lo != nil && a.hi != nil && a.lo.Sign() >= 0 && a.hi.Cmp(big.NewInt(63)) <= 0 {
+			r = meet(r, ival{pow2(uint(a.lo.Int64())), pow2(uint(a.hi.Int64()))})
+		}
+	case "bitval":
+		r = meet(r, ival{big.NewInt(0), big.NewInt(1)})
+	case "band8", "bor8", "bxor8", "bandnot8":
+		r = meet(r, ival{big.NewInt(0), big.NewInt(255)})
 	}
 	if len(t.Op) > 4 && t.Op[:4] == "len." {
 		r = meet(r, ival{lo: big.NewInt(0)})
